@@ -86,7 +86,14 @@ struct C19 : Check {
 		if (k == 0) return "";
 		if (k == 1) return gen_line(r, r.range(cols - 3, cols + 3), A_LOWER);		// around the width
 		if (k == 2) return gen_line(r, r.range(cols + 5, 3 * cols), A_ASCII_WORDS);	// long
-		if (k == 3) { std::string s; int n = (int) r.range(1, 20); for (int i = 0; i < n; i++) s += utf8_enc(0x4e00 + (unsigned) r.below(100)); return s; }
+		if (k == 3 && r.chance(1, 2)) { std::string s; int n = (int) r.range(1, 20); for (int i = 0; i < n; i++) s += utf8_enc(0x4e00 + (unsigned) r.below(100)); return s; }
+		if (k == 3) {
+			// double-width characters from the other blocks of the width table, mixed with narrow ones
+			static const unsigned wide[] = {0x1100, 0xd55c, 0xae00, 0x3042, 0x30ab, 0x3400, 0xf900, 0xff21, 0xff42, 0xa000};
+			std::string s; int n = (int) r.range(1, 24);
+			for (int i = 0; i < n; i++) s += r.chance(1, 3) ? std::string(1, (char) ('a' + r.below(26))) : utf8_enc(wide[r.below(10)]);
+			return s;
+		}
 		if (k == 4) return "\t" + gen_line(r, r.range(0, 20), A_ASCII_WORDS) + "\tx";
 		if (k == 5) return gen_line(r, r.range(3, 30), A_LOWER) + utf8_enc(0x301) + utf8_enc(0xe9) + gen_line(r, 4, A_LOWER);
 		if (k == 6) return utf8_enc(0x627) + utf8_enc(0x644) + utf8_enc(0x633) + " abc " + utf8_enc(0x645);	// RTL line
